@@ -75,7 +75,11 @@ class Cli:
                     break
                 deadline = time.monotonic() + 2.0
                 while time.monotonic() < deadline and p.poll() is None:
-                    pending = struct.unpack("i", fcntl.ioctl(p.stdin.fileno(), termios.FIONREAD, b"\0\0\0\0"))[0]
+                    try:
+                        pending = struct.unpack("i", fcntl.ioctl(p.stdin.fileno(), termios.FIONREAD, b"\0\0\0\0"))[0]
+                    except OSError:
+                        pending = 0  # cannot ask the pipe: a short pause has to do
+                        time.sleep(0.3)
                     if pending == 0:
                         time.sleep(0.05)
                         break
@@ -355,8 +359,12 @@ def pty_case(ctx, L, cli, case, columns):
     args = ["convert", cli.file(content), "--in", "binary", "--type", case.type]
     if case.type == "Response":
         args += ["--command", L.cc_by_code[case.cc][0]]
-    master, slave = pty.openpty()
-    fcntl.ioctl(slave, termios.TIOCSWINSZ, struct.pack("HHHH", 50, columns, 0, 0))
+    try:
+        master, slave = pty.openpty()
+        fcntl.ioctl(slave, termios.TIOCSWINSZ, struct.pack("HHHH", 50, columns, 0, 0))
+    except OSError:
+        ctx.count("pseudo-terminal-unavailable(skipped)")  # no pty devices in this environment: nothing to observe
+        return
     env = dict(os.environ, PYTHONPATH=O.SRC, PYTHONHASHSEED="0", PYTHONIOENCODING="utf-8", COLUMNS=str(columns), TERM="xterm")
     p = subprocess.Popen([sys.executable, "-m", "tpmstream"] + args, stdout=slave, stderr=subprocess.PIPE, stdin=subprocess.DEVNULL, env=env, cwd=cli.dir)
     os.close(slave)
